@@ -19,6 +19,7 @@ pub mod c17;
 pub mod c18;
 pub mod c19;
 pub mod c20;
+pub mod c20q;
 pub mod hist;
 
 pub fn all() -> Vec<CheckDef> {
